@@ -88,13 +88,21 @@ def build_model(full=False):
         ext_v = os.path.join(COQ, "Extract", "Extract.v")
         ml = os.path.join(OCAML, "model.ml")
         newest_vo = max(os.path.getmtime(os.path.join(COQ, f + "o")) for f in coq_files() if f.startswith(("Base/", "Model/")))
-        if not os.path.exists(ml) or os.path.getmtime(ml) < max(newest_vo, os.path.getmtime(ext_v)):
+        # the extraction is redone whenever the model sources differ from those it was made from (a digest, not only the
+        # time stamps: files copied into place keep their old ones)
+        h = hashlib.sha256()
+        for f in sorted(f for f in coq_files() if f.startswith(("Base/", "Model/"))) + ["Extract/Extract.v"]:
+            h.update(f.encode()); h.update(open(os.path.join(COQ, f), "rb").read())
+        digest, stamp = h.hexdigest(), os.path.join(OCAML, "model.src.sha256")
+        same = os.path.exists(stamp) and open(stamp).read().strip() == digest
+        if not os.path.exists(ml) or not same or os.path.getmtime(ml) < max(newest_vo, os.path.getmtime(ext_v)):
             rc, out2 = sh(["coqc", "-Q", "..", "WB", "Extract.v"], cwd=os.path.join(COQ, "Extract"), timeout=600)
             out += out2
             if rc != 0:
                 return False, out
             for f in ("model.ml", "model.mli"):
                 os.replace(os.path.join(COQ, "Extract", f), os.path.join(OCAML, f))
+            open(stamp, "w").write(digest + "\n")
         for drv in [f[:-3] for f in os.listdir(OCAML) if f.endswith("_driver.ml")]:
             exe = os.path.join(OCAML, drv)
             srcs = ["model.mli", "model.ml", "conv.ml", "str_find.ml", "core_driver_lib.ml", drv + ".ml"]
